@@ -11,14 +11,14 @@ CHECKS = {
    note='Trusted: Coq kernel + vm_compute; capture hook printer and Python term printer (translator); extraction + OCaml driver; harness. regex-automata determinisation is modelled as data (the captured DFA), regex-level reading relies on it. Inputs: all (theorem). Definitions: those whose certificate evaluates to true; evaluated on the corpora only.'),
  'C02': dict(
    technique='Coq proof (induction over the input; soundness of liveness-rank certificates) + kernel-checked per-definition certificates + differential correspondence',
-   text='Theorems C02_error_span, C02_stop_exact, C02_lv_is_live (closed): under certificates dfa_ok, sim_ok, exact_ok, an attempt with no match stops exactly at the first byte (EOI counting as one) after which the text read cannot be extended to a match (FirstDead, stated with the inductive Live), next() yields one Err with span start..fb(max(start+v,start+1)) and the next attempt starts there; in every attempt a byte is consumed only if the state reached is live or confirms a match and the attempt stops only at a non-live successor (Stops). Certificates re-evaluated per run on captured DFA+graph; compiled lexers compared with the executor model and the DFA-level specification on error spans.',
+   text='Theorems C02_error_span, C02_stop_exact, C02_lv_is_live, C02_emitted_stop_exact (closed): under certificates dfa_ok, sim_ok, exact_ok, an attempt with no match stops exactly at the first byte (EOI counting as one) after which the text read cannot be extended to a match (FirstDead, stated with the inductive Live), next() yields one Err with span start..fb(max(start+v,start+1)) and the next attempt starts there; in every attempt a byte is consumed only if the state reached is live or confirms a match and the attempt stops only at a non-live successor (Stops). Certificates re-evaluated per run on captured DFA+graph; compiled lexers compared with the executor model and the DFA-level specification on error spans.',
    design='DESIGN.md sections 5, 7 (C02)',
-   note='As C01. exact_ok additionally trusts nothing: liveness ranks are untrusted hints validated by rank_ok/classify_ok. Error values (Default / error callback) are C13. find_boundary is modelled (fb_str) and tied by K2 on multi-byte inputs.'),
+   note='As C01. exact_ok additionally trusts nothing: liveness ranks are untrusted hints validated by rank_ok/classify_ok. Error values are compared on the compiled callback definitions (error_value_stage; the dispatch table is C13). find_boundary is modelled (fb_str) and tied by K2 on multi-byte inputs.'),
  'C03': dict(
    technique='Coq proof (strong induction on remaining input) of termination, progress and tiling + certificates + differential correspondence',
-   text='Theorems C03_tiling, C03_none_absorbing, C03_fb_str_ok (closed): under the certificates, iterating next() never gets stuck or runs out of fuel, yields finitely many items then None with span len..len forever, and items plus skipped regions are non-empty, contiguous from 0 to the input length, for every callback oracle that bumps in range. "No empty-matching definition is accepted" is decided per definition by dfa_ok (no unit successor of the start state is a match state) on every accepted definition of the corpora, including random definitions with nullable patterns.',
+   text='Theorems C03_tiling, C03_none_absorbing, C03_fb_str_ok, C03_emitted_tiling (closed): under the certificates, iterating next() never gets stuck or runs out of fuel, yields finitely many items then None with span len..len forever, and items plus skipped regions are non-empty, contiguous from 0 to the input length, for every callback oracle that bumps in range. "No empty-matching definition is accepted" is decided per definition by dfa_ok (no unit successor of the start state is a match state) on every accepted definition of the corpora, including random definitions with nullable patterns.',
    design='DESIGN.md sections 5, 7 (C03)',
-   note='As C01/C02. The iterator is additionally called three more times after None in K2.'),
+   note='As C01/C02. The iterator is additionally called three more times after None in K2; Source::is_boundary / find_boundary are compared with the model on a grid (K6b).'),
  'C06': dict(
    technique='Coq proof (induction; fast-loop / fork-lookup lemmas) that the per-state program emitted by both generators equals the reference semantics + differential run of both generators',
    text='Theorems C06_opt_is_ref, C06_generators_agree (closed): the per-state program both generators emit (unrolled self-loop with any unroll factor, record, one-byte fork rendered as if-chain or 256-entry table, end-of-input block) computes the reference walk on every well-formed graph, for every input, in ordinary and partial mode; hence any two renderings agree. wf_graph is re-evaluated on every accepted definition per run. The tail-call and state-machine lexers are compiled and compared with each other and with the model on all probes (results, spans, final spans, both modes); state-machine output is scanned structurally; long inputs run on a 128 KiB stack.',
@@ -26,9 +26,9 @@ CHECKS = {
    note='Both generators share one model (they differ only in transition rendering, which no result observes); the tie of each generator to that model is K2. Stack usage is supported by structure scan + small-stack runs, not proved (partial).'),
  'C07': dict(
    technique='Coq proof (structural induction over the prefix) of prefix safety for every graph + promptness certificate + differential run of partial vs one-shot lexers on every split',
-   text='Theorems C07_next_prefix_safe, C07_next_prefix_none (closed, no certificate needed): for every graph, input w and split k, an item the partial lexer yields over w[..k] (after the same skipped regions) is exactly what the ordinary lexer yields over w, and at None the reported empty span s..s is where the ordinary lexer continues. Promptness: C07_determined_scan (in a determined DFA state the recorded match is the same for every continuation) and C07_prompt_one_byte / C07_no_test_acts (under the certificate prompt_ok a determined state acts at the end of the buffer, or every state one byte further does), with prompt_ok evaluated on every paired state of every accepted definition. Real partial lexers are run on every prefix of generated inputs against the real one-shot lexer (the property\'s own oracle) and the model. Finding F1 was re-found by this check and fixed (known_findings.txt).',
+   text='Theorems C07_next_prefix_safe, C07_next_prefix_none (closed, no certificate needed): for every graph, input w and split k, an item the partial lexer yields over w[..k] (after the same skipped regions) is exactly what the ordinary lexer yields over w, and at None the reported empty span s..s is where the ordinary lexer continues. Promptness: C07_determined_scan (in a determined DFA state the recorded match is the same for every continuation) and C07_prompt_one_byte / C07_no_test_acts (under the certificate prompt_ok a determined state acts at the end of the buffer, or every state one byte further does), with prompt_ok evaluated on every paired state of every accepted definition. C07_prompt_strict / C07_waits_only_if_open: under the strict certificate prompt_strict_ok (required of every definition without look-around) a determined state acts at once, and a state that waits has a successor from which a match is still reachable or two successors that disagree. Stream level: C07_stream_prefix (every graph), C07_partial_runs_end and C07_chunked_is_oneshot: for EVERY schedule of growing buffers the concatenated regions equal the one-shot lexing; C07_emitted_chunked_is_oneshot the same for the program parsed from the generated code. Real partial lexers are run on every prefix of generated inputs against the real one-shot lexer (the property\'s own oracle) and the model, and on random multi-buffer schedules. Finding F1 was re-found by this check and fixed (known_findings.txt).',
    design='DESIGN.md sections 7 (C07), 9 (F1)',
-   note='The converse of promptness (a state that waits is not determined) is not stated; chunk schedules follow from the per-call theorems by iteration. Callbacks bumping past the prefix panic in real code (outside the theorem).'),
+   note='The converse of promptness is stated at the certificate level (Live successor or disagreeing winners), not as a pair of concrete continuations. Callbacks bumping past the prefix panic in real code (outside the theorem).'),
  'C20': dict(
    technique='Coq proof (induction over visits; sorted-log composition lemmas) on the read log of the emitted per-state program + exact trace correspondence through the read hook',
    text='Theorem C20_reads_monotone_linear (closed): for every graph, unroll factor >= 1, mode and input, the offsets read within one attempt never decrease, none precedes the attempt start, and #reads <= 3 * (offsets examined), independent of the graph. With C06_opt_is_ref the log belongs to the program that computes the reference semantics. The real read trace (hook in Lexer::read, next and trivia) of both generators equals the model log exactly on all probes, and the bound / monotonicity / restart-at-item-end are also checked directly on the real traces.',
@@ -41,7 +41,7 @@ CHECKS = {
    note='PARTIAL by nature: machine-level memory safety of the unsafe pointer reads is modelled as index bounds and observed offsets; no sanitizer result is claimed.'),
  'C13': dict(
    technique='Coq proof by exhaustive case analysis of the return-value dispatch + structural lemmas of the lexing loop + differential run with recording callbacks',
-   text='Theorems C13_construct_matches_table (every CallbackRetVal/SkipRetVal impl and value shape maps to the documented outcome), C13_decision_determines_item, C13_skip_transparent, C13_bump_extends_and_excludes (closed). Compiled definitions with one callback per impl (14+4), any-token callbacks, an error callback and a bumping callback are run under both generators; per next() the result, chosen variant, error value, span and the log of callback invocations (count, observed span and slice) are compared with the model.',
+   text='Theorems C13_construct_matches_table (every CallbackRetVal/SkipRetVal impl and value shape maps to the documented outcome), C13_decision_determines_item, C13_skip_transparent, C13_bump_extends_and_excludes (closed). Compiled definitions with one callback per impl (14+4), any-token callbacks, an error callback and bumping callbacks (str and byte sources) are run under both generators; every leaf of every corpus definition carries a callback exactly when its attribute declares one (independent scan); per next() the result, chosen variant, error value, span and the log of callback invocations (count, observed span and slice) are compared with the model.',
    design='DESIGN.md section 7 (C13)',
    note='construct is a hand mirror of src/internal.rs (29 value shapes); its tie to the code is the compiled corpus. Callbacks are modelled as an oracle (decision, bump).'),
  'C15': dict(
@@ -51,14 +51,14 @@ CHECKS = {
    note='The model of bump is hand-written (8 lines) and tied by the grid; slice() is only called on states the spec calls valid (no sanitizer).'),
  'C04': dict(
    technique='Coq proof (UTF-8 automaton product; induction over input and over the lexing loop) + kernel-extracted certificates per definition and per independently compiled subpattern + differential run',
-   text='Theorems C04_match_ends_on_boundary, C04_bnd_is_char_boundary, C04_spans_on_boundaries, C04_fb_str_boundary (closed): under utf8_ok (complete exploration of DFA x UTF-8 validity automaton, validated hint), every match starting on a char boundary of valid UTF-8 ends on one; the automaton notion coincides with str::is_char_boundary; every boundary of every token, error, skipped region and the final span produced by the lexing loop is a char boundary (for callbacks that bump onto boundaries, as Lexer::bump enforces). Acceptance half: utf8_ok+utf8_strict_ok decide "matches only valid UTF-8" on the captured DFA of every accepted str-mode definition and on the independently built DFA of each of its subpatterns; curated must-reject definitions.',
+   text='Theorems C04_match_ends_on_boundary, C04_bnd_is_char_boundary, C04_spans_on_boundaries, C04_fb_str_boundary, C04_emitted_spans_on_boundaries (closed): under utf8_ok (complete exploration of DFA x UTF-8 validity automaton, validated hint), every match starting on a char boundary of valid UTF-8 ends on one; the automaton notion coincides with str::is_char_boundary; every boundary of every token, error, skipped region and the final span produced by the lexing loop is a char boundary (for callbacks that bump onto boundaries, as Lexer::bump enforces). Acceptance half: utf8_ok+utf8_strict_ok decide "matches only valid UTF-8" on the captured DFA of every accepted str-mode definition and on the independently built DFA of each of its subpatterns; curated must-reject definitions.',
    design='DESIGN.md sections 5.3, 7 (C04)',
    note='As C01. The UTF-8 automaton is Unicode table 3-7, hand-written (Base/Utf8.v), with its continuation-byte table proved by exhaustive vm_compute. Subpattern DFAs are built by the capture tool, not by logos.'),
  'C12': dict(
    technique='Coq proof of the two per-call theorems (mode independence up to find_boundary; one-byte errors inside a character under the strictness certificate) + graph equality across modes + differential run of mode twins',
-   text='Theorems C12_next_fb_independent and C12_inside_char_error (closed): the two modes run the same graph and one next() call from the same position yields the same skipped regions and Ok item, or an error whose end is each mode\'s rounding of the same raw end; in byte mode an attempt starting inside a character of valid UTF-8 dies on its first byte (under utf8_strict_ok), so the errors cover the same bytes. Per run: captured graphs of every dual definition are equal across modes; compiled twins agree on Ok tokens, spans and the set of error bytes on all valid-UTF-8 probes; acceptance pairs (rejected in str mode, accepted with utf8 = false).',
+   text='Theorems C12_next_fb_independent and C12_inside_char_error (closed): the two modes run the same graph and one next() call from the same position yields the same skipped regions and Ok item, or an error whose end is each mode\'s rounding of the same raw end; in byte mode an attempt starting inside a character of valid UTF-8 dies on its first byte (under utf8_strict_ok), so the errors cover the same bytes. C12_streams_agree: with every default error cut into one-byte pieces the whole streams of the two modes are equal lists (same Ok items, skipped matches, callback errors, error bytes, in order); C12_emitted_streams_agree the same for the program parsed from the generated code. Per run: captured graphs and leaf priorities of every dual definition are equal across modes; compiled twins agree on Ok tokens, spans and the set of error bytes on all valid-UTF-8 probes; acceptance pairs (rejected in str mode, accepted with utf8 = false).',
    design='DESIGN.md section 7 (C12)',
-   note='Stream-level agreement follows from the per-call theorems by iteration (not a Coq theorem); compared directly by K2.'),
+   note='The stream theorem holds for any byte string (on text that is not valid UTF-8 it compares the byte lexer with a lexer whose find_boundary skips continuation bytes); the compiled twins are compared on valid UTF-8 probes (K2).'),
  'C08': dict(
    technique='Coq proof (winner characterisation; reachability certificate) + exhaustive per-definition exploration of the captured raw DFA by the extracted checker',
    text='Theorems C08_tie_iff_shared, C08_no_silent_choice, C08_tie_has_ambiguous_string (closed): a DFA state wins by tie exactly when two different leaves share the greatest priority among the matching leaves; an accepted DFA (dfa_ok) never has such a state on any input; a tie state with a validated reachability hint yields a concrete byte string matched by both patterns. Per run, for every definition of the corpora (incl. rejected ones and 40% random definitions with free priorities): the tie sets computed in Coq from the raw DFA (printed by the hook without get_state_type) equal the GraphError::Disambiguation sets, the accept/reject outcome agrees, every conflicting leaf is named by a diagnostic.',
@@ -66,12 +66,12 @@ CHECKS = {
    note='"Some string is fully matched by patterns" is read on the captured DFA (regex-automata modelled as data). Definitions rejected earlier for empty matches / no universal start are outside the iff.'),
  'C09': dict(
    technique='Coq proof (nested induction over the match relation of the HIR mirror) + per-leaf evaluation of the Coq rule on the captured HIR',
-   text='Theorems C09_complexity_le_len, C09_literal_never_beaten and the four structural rules (closed): any string matched by r has at least complexity(r)/2 bytes, so a default-priority regex matching a literal token\'s text never has a greater priority than the token (2 x byte length): the token wins or C08 reports the tie. Per run: for every leaf of every corpus definition the Coq complexity of the HIR printed by the hook equals Pattern::priority(); leaf priority equals the explicit priority or the default (attributes scanned independently); on accepted definitions each literal is run through the captured DFA on its own text.',
+   text='Theorems C09_complexity_le_len, C09_literal_never_beaten and the four structural rules (closed): any string matched by r has at least complexity(r)/2 bytes, so a default-priority regex matching a literal token\'s text never has a greater priority than the token (2 x byte length): the token wins or C08 reports the tie. C09_code_value_is_rule_saturated / C09_code_value_exact: the usize arithmetic of Pattern::complexity (saturating since finding F11 was repaired) gives the documented value cut off at usize::MAX. Per run: for every leaf of every corpus definition the Coq complexity_sat of the HIR printed by the hook equals Pattern::priority(); the same on pattern text through Pattern::compile (counted repetitions whose product leaves usize, alternations with empty branches, multi-byte classes); leaf priority equals the explicit priority or the default (attributes scanned independently); on accepted definitions each literal is run through the captured DFA on its own text.',
    design='DESIGN.md section 7 (C09)',
    note='Matches treats look-arounds as empty (sound for the upper bound). HIR construction is regex-syntax. Unicode classes are truncated to 24 ranges when printed to Coq (complexity ignores class contents).'),
  'C10': dict(
    technique='Coq proof of the escape round trip and of the language-equality certificate (bisimulation) + per-case certificates against reference automata built without logos',
-   text='Theorems C10_escape_str_roundtrip, C10_escape_bytes_roundtrip (the escaped literal denotes exactly the literal bytes, all byte strings) and C10_bisim_sound (a validated relation implies the two leaves match the same texts in the same contexts) (closed). Per run, seeded literals over all regex metacharacters, case-folding-sensitive characters, 3/4-byte characters and bytes 0x80..0xFF: plain #[token] vs the chain automaton of its bytes; ignore(case) token / regex / skip vs the DFA regex-automata builds for (?i:escaped) without logos; companion leaf unchanged; Literal::escape vs the Coq model. Finding F2 (skip ignores ignore(case)) re-found and fixed.',
+   text='Theorems C10_escape_str_roundtrip, C10_escape_bytes_roundtrip (the escaped literal denotes exactly the literal bytes, all byte strings) and C10_bisim_sound (a validated relation implies the two leaves match the same texts in the same contexts) (closed). Per run, seeded literals over all regex metacharacters, case-folding-sensitive characters, 3/4-byte characters and bytes 0x80..0xFF: plain #[token] vs the chain automaton of its bytes; ignore(case) token / regex / skip vs the DFA regex-automata builds for (?i:escaped) without logos; companion leaf and all priorities unchanged; the code emitted for the generated definitions is the program of their graphs (K12); Literal::escape vs the Coq model. Finding F2 (skip ignores ignore(case)) re-found and fixed.',
    design='DESIGN.md sections 7 (C10), 9 (F2)',
    note='Unicode case folding and the regex grammar are regex-syntax data; the composition is decided per generated case by bisim_ok (hint from Python BFS, validated by the extracted checker), not for all literals at once.'),
  'C11': dict(
@@ -86,14 +86,14 @@ CHECKS = {
    note='Models are hand mirrors (lib.rs:449-493, main.rs:41-57) tied by K10. "Valid Rust" is checked by parsing. rustfmt (--format) is outside.'),
  'C18': dict(
    technique='Coq proof (induction over the item list) on a statement-by-statement model of the attribute tokenizer + permutation-invariance proof of named arguments + differential and end-to-end permutation runs',
-   text='Theorems C18_parse_join_items (for every list of well-formed items name = v / name(..) / name "lit" / name ident = v / positional, the tokenizer returns exactly those items from their comma-joined text), C18_named_args_commute (any permutation of named arguments over distinct fields gives the same definition and no error), C18_old_refuted (finding F5) (closed). Per run: the real AttributeParser equals the model by vm_compute on curated and random attribute contents incl. malformed ones; every permutation of up to 4 named arguments x {token, regex, skip(..)} x {no positional callback, label, closure} and dependency-respecting permutations of #[logos(..)] items give the same outcome, leaves and byte-identical generated code.',
+   text='Theorems C18_parse_join_items (for every list of well-formed items name = v / name(..) / name "lit" / name ident = v / positional, the tokenizer returns exactly those items from their comma-joined text), C18_named_args_commute (any permutation of named arguments over distinct fields gives the same definition and no error), C18_old_refuted (finding F5), C18_generic_items_commute / C18_type_lifetime_swap (finding F10), C18_reordered_leaves_agree (graphs related by gsim_ok after a leaf translation give the same walks) (closed). Per run: the real AttributeParser equals the model by vm_compute on curated and random attribute contents incl. malformed ones; every permutation of up to 4 named arguments x {token, regex, skip(..)} x {no positional callback, label, closure} and dependency-respecting permutations of #[logos(..)] items give the same outcome, leaves and byte-identical generated code.',
    design='DESIGN.md sections 7 (C18), 9 (F5)',
-   note='Argument values are parsed by syn (outside the model). Reordering skips renumbers leaves; those orders are compared only for outcome here.'),
+   note='Argument values are parsed by syn (outside the model). Permutations of the skip items themselves renumber the leaves: they are compared by outcome, by leaf content and by the bisimulation checker after translating leaf numbers.'),
  'C19': dict(
    technique='Coq proof on the panic-relevant decision skeleton and on the greedy-dot test (soundness and completeness w.r.t. an inductive specification) + catch_unwind and real-rustc runs on curated and random malformed definitions',
-   text='Theorems C19_never_panics, C19_bad_variant_rejected (skeleton of the two panic sites and of variant shapes), C19_greedy_complete / C19_greedy_sound (the repaired test finds an unbounded greedy dot repetition at any depth and only those), and regression lemmas for F6, F7, F8 (closed). Per run: ~90 curated must-reject definitions by class, seeded random malformed definitions and the repo corpus through generate() under catch_unwind; the same sources through rustc with the real proc macro (scanned for "proc-macro derive panicked"; every rejected definition must carry an error); check_for_greedy_all equals the Coq test on every captured HIR and no greedy leaf is accepted without allow_greedy. Empty-match / UTF-8 / undefined-subpattern rejections are decided by C03 / C04 / C11.',
+   text='Theorems C19_never_panics, C19_bad_variant_rejected (skeleton of the two panic sites and of variant shapes), C19_greedy_complete / C19_greedy_sound (the repaired test finds an unbounded greedy dot repetition at any depth and only those), C19_complexity_fits and regression lemmas for F6, F7, F8, F9, F11 (closed). Per run: ~90 curated must-reject definitions by class, seeded random malformed definitions and the repo corpus through generate() under catch_unwind; the same sources through rustc with the real proc macro (scanned for "proc-macro derive panicked"; every rejected definition must carry an error); check_for_greedy_all equals the Coq test on every captured HIR and no greedy leaf is accepted without allow_greedy. Empty-match / UTF-8 / undefined-subpattern rejections are decided by C03 / C04 / C11.',
    design='DESIGN.md sections 7 (C19), 9 (F6-F8)',
-   note='PARTIAL: panics inside syn / regex-syntax / regex-automata and rustc itself are outside the model; termination is observed per call, not proved; the skeleton covers logos\' own panic sites only.'),
+   note='PARTIAL: panics inside syn / regex-syntax / regex-automata and rustc itself are outside the model, and so is memory exhaustion in regex-automata for astronomically large counted repetitions (logos sets no NFA size limit; DESIGN.md 0.7); termination is observed per call, not proved; the skeleton covers logos\' own panic sites only.'),
  'C14': dict(
    technique='Coq proof on the state-machine model of the public Lexer API (pool of lexers; next is the engine model) + differential run of random API histories',
    text='Theorems C14_step_only_current (an operation never changes a lexer other than the current one: clones and originals are independent), C14_clone_is_copy, C14_morph_preserves, C14_morph_back, C14_spanned_eq_next, C14_bump_in_range (closed). Per run: thousands of random histories of next / spanned / in-range bump / clone / switch / morph over pairs of compiled definitions sharing a source (str and bytes, ordinary and partial mode, both generators): after every operation span(), slice() == source[span], remainder() == source[end..] and the result of next are compared with the extracted run_history.',
